@@ -6,8 +6,9 @@ handling dataset loading/saving with DAG scheduling for memory efficiency.
 """
 
 import re
+from contextlib import contextmanager
 from pathlib import Path
-from typing import Any, Dict, List, Literal, Optional, Tuple, Union
+from typing import Any, Dict, Iterator, List, Literal, Optional, Tuple, Union
 
 import duckdb
 import pandas as pd
@@ -146,6 +147,22 @@ def _map_query_error(error: duckdb.Error, sql_query: str) -> Exception:
 
     # Return original error if no mapping found
     return error
+
+
+@contextmanager
+def _duckdb_errors_as_vtl(result_name: str, sql_query: str) -> Iterator[None]:
+    """Surface DuckDB errors raised while computing or fetching ``result_name`` as VTL errors.
+
+    Known messages are mapped to their specific VTL error; anything else becomes the generic
+    RunTimeError 2-1-1-1 so that no raw database exception escapes run().
+    """
+    try:
+        yield
+    except duckdb.Error as e:
+        mapped = _map_query_error(e, sql_query)
+        if mapped is e:
+            mapped = RunTimeError("2-1-1-1", op=result_name, error=str(e))
+        raise mapped from e
 
 
 def _format_timestamp(ts: Any) -> str:
@@ -522,29 +539,23 @@ def execute_queries(
         )
 
         # Execute query and create table
-        try:
+        with _duckdb_errors_as_vtl(result_name, sql_query):
             conn.execute(f'CREATE TABLE "{result_name}" AS {sql_query}')
-        except duckdb.Error as e:
-            mapped = _map_query_error(e, sql_query)
-            if mapped is not e:
-                raise mapped from e
-            raise
-        except Exception:
-            raise
 
         # Clean up datasets scheduled for deletion
-        cleanup_scheduled_datasets(
-            conn=conn,
-            statement_num=statement_num,
-            ds_analysis=ds_analysis,
-            output_folder=output_folder,
-            output_datasets=output_datasets,
-            output_scalars=output_scalars,
-            results=results,
-            return_only_persistent=return_only_persistent,
-            representation=representation,
-            output_format=output_format,
-        )
+        with _duckdb_errors_as_vtl(result_name, sql_query):
+            cleanup_scheduled_datasets(
+                conn=conn,
+                statement_num=statement_num,
+                ds_analysis=ds_analysis,
+                output_folder=output_folder,
+                output_datasets=output_datasets,
+                output_scalars=output_scalars,
+                results=results,
+                return_only_persistent=return_only_persistent,
+                representation=representation,
+                output_format=output_format,
+            )
 
     # Handle final results not yet processed
     for result_name, _, is_persistent in queries:
@@ -555,15 +566,16 @@ def execute_queries(
         if not should_include:
             continue
 
-        results[result_name] = fetch_result(
-            conn=conn,
-            result_name=result_name,
-            output_folder=output_folder,
-            output_datasets=output_datasets,
-            output_scalars=output_scalars,
-            representation=representation,
-            output_format=output_format,
-        )
+        with _duckdb_errors_as_vtl(result_name, ""):
+            results[result_name] = fetch_result(
+                conn=conn,
+                result_name=result_name,
+                output_folder=output_folder,
+                output_datasets=output_datasets,
+                output_scalars=output_scalars,
+                representation=representation,
+                output_format=output_format,
+            )
 
     # Save scalars to CSV when output_folder is provided
     if output_folder:
